@@ -187,10 +187,101 @@ def der_ok(sig):
         return False
 
 
-def mutate(form, sig, rng):
+ED_L = {"Ed25519": 2 ** 252 + 27742317777372353535851937790883648493,
+        "Ed448": 2 ** 446 - 13818066809895115352007386748515426880336692474882178609894547503885}
+ED_LEN = {"Ed25519": 32, "Ed448": 57}
+
+
+def _der_int(n, pad=0):
+    """DER INTEGER (two's complement, minimal unless `pad` extra leading bytes are asked for)"""
+    if n >= 0:
+        b = n.to_bytes(n.bit_length() // 8 + 1, "big")
+        b = b"\x00" * pad + b
+    else:
+        ln = ((-n - 1).bit_length()) // 8 + 1
+        b = b"\xff" * pad + (n + (1 << (8 * ln))).to_bytes(ln, "big")
+    ln = len(b)
+    hdr = bytes([ln]) if ln < 128 else bytes([0x80 | len(ln.to_bytes((ln.bit_length() + 7) // 8, "big"))]) + \
+        ln.to_bytes((ln.bit_length() + 7) // 8, "big")
+    return b"\x02" + hdr + b
+
+
+def _der_seq(body):
+    ln = len(body)
+    hdr = bytes([ln]) if ln < 128 else bytes([0x80 | len(ln.to_bytes((ln.bit_length() + 7) // 8, "big"))]) + \
+        ln.to_bytes((ln.bit_length() + 7) // 8, "big")
+    return b"\x30" + hdr + body
+
+
+def _order(key):
+    if key.key_type == "dsa":
+        return int(key.q)
+    return int(key.public_key.curve.order)
+
+
+def degenerate_forms(key):
+    """names of the algebraically special / degenerate signatures for the key type of `key`"""
+    kt = key.key_type
+    if kt in ("dsa", "ecdsa"):
+        return ["rs:0:0", "rs:1:0", "rs:0:1", "rs:1:1", "rs:q:1", "rs:1:q", "rs:q-1:q-1", "rs:q+1:1", "rs:1:q+1",
+                "rs:-1:1", "rs:1:-1", "rs:r:0", "rs:0:s", "rs:r:s+q", "rs:r+q:s", "rs:pad"]
+    if kt in ("rsa", "rsa-pss"):
+        return ["rsa:0", "rsa:1", "rsa:n-1", "rsa:n", "rsa:n+1", "rsa:s+n"]
+    if kt in ("Ed25519", "Ed448"):
+        return ["ed:zero", "ed:identityR-zeroS", "ed:R-zeroS", "ed:S+L", "ed:identityR-S"]
+    return []
+
+
+def degenerate(name, key, honest):
+    """the degenerate signature `name` for the public parameters of `key`; `honest` is a valid signature
+    (used where the form keeps one component)"""
+    kt = key.key_type
+    honest = bytes(honest)
+    if name.startswith("rs:"):
+        q = _order(key)
+        try:
+            from ecdsa.der import remove_sequence, remove_integer
+            body, _ = remove_sequence(honest)
+            hr, rest = remove_integer(body)
+            hs, _ = remove_integer(rest)
+        except Exception:
+            hr, hs = 2, 3
+        if name == "rs:pad":
+            return _der_seq(_der_int(hr, pad=2) + _der_int(hs, pad=2))
+        _, a, b = name.split(":")
+        val = {"0": 0, "1": 1, "q": q, "q-1": q - 1, "q+1": q + 1, "-1": -1, "r": hr, "s": hs, "s+q": hs + q, "r+q": hr + q}
+        return _der_seq(_der_int(val[a]) + _der_int(val[b]))
+    if name.startswith("rsa:"):
+        n = int(key.n)
+        k = (n.bit_length() + 7) // 8
+        hsig = int.from_bytes(honest, "big") if honest else 2
+        v = {"0": 0, "1": 1, "n-1": n - 1, "n": n, "n+1": n + 1, "s+n": hsig + n}[name.split(":")[1]]
+        return v.to_bytes(max(k, (v.bit_length() + 7) // 8), "big")
+    if name.startswith("ed:"):
+        ln = ED_LEN[kt]
+        L = ED_L[kt]
+        R, S = honest[:ln], honest[ln:2 * ln]
+        ident = b"\x01" + b"\x00" * (ln - 1)
+        if name == "ed:zero":
+            return b"\x00" * (2 * ln)
+        if name == "ed:identityR-zeroS":
+            return ident + b"\x00" * ln
+        if name == "ed:R-zeroS":
+            return R + b"\x00" * ln
+        if name == "ed:identityR-S":
+            return ident + S
+        if name == "ed:S+L":
+            v = int.from_bytes(S, "little") + L
+            return R + v.to_bytes(max(ln, (v.bit_length() + 7) // 8), "little")[:ln + 1].ljust(ln, b"\x00")
+    raise ValueError(name)
+
+
+def mutate(form, sig, rng, key=None):
     sig = bytes(sig)
     if form == "ok":
         return sig
+    if form.startswith("deg:"):
+        return degenerate(form[4:], key, sig)
     if form == "bitflip":
         if not sig:
             return b"\x01"
